@@ -113,8 +113,9 @@ def _instance_ids(X):
 
 
 class _PanelSpy(SkBase):
-    def __init__(self, tag="spy"):
+    def __init__(self, tag="spy", salt=0):
         self.tag = tag
+        self.salt = salt      # a hyper-parameter: another salt, other predictions
 
     def fit(self, X, y):
         ids = _instance_ids(X)
@@ -134,6 +135,8 @@ class _PanelSpy(SkBase):
     def _values(self, X):
         ids = _instance_ids(X)
         cols = [str(c) for c in X.columns]
+        if self.salt:
+            return ids, [_h(self.tag, self.train_print_, i, cols, self.salt) for i in ids]
         return ids, [_h(self.tag, self.train_print_, i, cols) for i in ids]
 
 
@@ -155,6 +158,38 @@ class SpyRegressor(RegressorMixin, _PanelSpy):
         # (values with a full 17-digit decimal expansion: a store that does not round-trip
         # floats exactly shows)
         return np.array([(h % 1000003) / 64.0 + (h % 9973) / 9973.0 / 1000.0 for h in hs], dtype=float)
+
+
+def salt_scorer(estimator, X, y=None):
+    """Scorer for QuietSearch: the larger salt wins (the default, 0, never does)."""
+    return float(estimator.salt)
+
+
+from sklearn.model_selection import GridSearchCV  # noqa: E402
+
+
+class QuietSearch(GridSearchCV):
+    """scikit-learn's GridSearchCV (a real one: subclassed only to keep the books) around a
+    panel spy. The fits and predictions made INSIDE the search are not events of the run under
+    test: the search's own fit / predict are recorded, under the spy's tag, and can be armed to
+    fail like any other peer call."""
+
+    def fit(self, X, y=None, **params):
+        ids = _instance_ids(X)
+        _record(self.estimator.tag, "fit", ids=list(ids), cols=[str(c) for c in X.columns],
+                y=[str(v) for v in np.asarray(y)])
+        with paused():
+            return super().fit(X, y, **params)
+
+    def predict(self, X):
+        _record(self.estimator.tag, "predict", ids=list(_instance_ids(X)))
+        with paused():
+            return super().predict(X)
+
+
+def quiet_search(spy):
+    from sklearn.model_selection import KFold
+    return QuietSearch(spy, {"salt": [1, 2]}, scoring=salt_scorer, cv=KFold(2), refit=True)
 
 
 # ------------------------------------------------------------------ tabular stub
